@@ -269,9 +269,14 @@ StepL1(m, cfg) ==
         ELSE LET ch == pk[2] IN
              IF ch = TAB \/ ch = FF \/ ch = SP \/ ((ch = LF \/ ch = CR) /\ "raw_newlines_before_attr_value" \in Defects)
              THEN Cont(DiscardRaw(m))
+             ELSE IF ch = LF /\ m.ignoreLf /\ "bav_reconsume_after_crlf" \notin Defects THEN
+                 \* the LF of a CRLF pair was counted with its CR: discarded raw, flag cleared (e9ca008)
+                 Cont([DiscardRaw(m) EXCEPT !.ignoreLf = FALSE])
              ELSE IF ch = LF \/ ch = CR THEN
-                 \* line breaks go through the preprocessor; a character handed back after
-                 \* the LF of a CRLF pair was skipped is looked at again
+                 \* other line breaks go through the preprocessor (normalised, counted).  Defect switch: the first
+                 \* repair let the preprocessor skip the LF of a CRLF pair and reconsumed the character after it,
+                 \* which made the parse errors of the unquoted-value state depend on chunking (errors are not
+                 \* modelled here; the real-run comparison of C03 found it)
                  LET g == GetChar(m) IN
                  IF g.res = "none" THEN Susp(g.m)
                  ELSE IF g.c # LF THEN Cont([g.m EXCEPT !.reconsume = TRUE]) ELSE Cont(g.m)
